@@ -28,6 +28,8 @@ func init() {
 }
 
 func runC17(w *World, r *Report) {
+	r.Rule("shadow", "no := in an inner scope re-declares a same-typed variable of the function that is read afterwards (or a named result): the value computed there would be lost", 1)
+	shadowRule(w, r, "shadow", func(fi *FuncInfo) bool { return fi.Pkg.Types.Name() == "openflow13" })
 	r.Rule("nopanic", "the width-copy helper cannot index out of range; oversize and negative values take the error return", 2)
 	r.Rule("nomutate", "the builder leaves its value and mask arguments untouched and does not retain them", 2)
 	r.Rule("errprop", "errors of the lookup and of the width check reach the caller; no return is (nil, nil)", 4)
@@ -67,6 +69,35 @@ func runC17(w *World, r *Report) {
 		}
 	}
 
+	// ---------------------------------------------------------------- nopanic (window arguments)
+	// the builder indexes its variadic window list: every element it touches must exist on that path
+	// (len(mask) tells how many were given; `mask != nil` does not: an empty, non-nil list has none)
+	for _, p := range parts {
+		fs := w.Interpret(p, "decode")
+		seen := map[string]bool{}
+		for _, st := range fs.Sites {
+			if st.Origin != "list" {
+				continue
+			}
+			inst := "window:" + normSite(st.Text) + "@" + fmt.Sprint(w.Fset.Position(st.Pos).Line-w.Fset.Position(p.Decl.Pos()).Line)
+			if seen[inst] {
+				continue
+			}
+			seen[inst] = true
+			okAll := true
+			var failed Need
+			for _, nd := range st.Needs {
+				if !w.ProveX(nd.A, nd.B, st.Facts) {
+					okAll, failed = false, nd
+				}
+			}
+			if okAll {
+				r.OK("nopanic", p.Key, inst, w.Pos(st.Pos), "the window argument indexed here exists on this path", true)
+			} else {
+				r.Fail(VViolation, "nopanic", p.Key, inst, w.Pos(st.Pos), fmt.Sprintf("%s: %s needs %v <= %v, which the conditions on this path do not give (an empty but non-nil argument list reaches it): index out of range", st.Text, failed.What, failed.A, failed.B))
+			}
+		}
+	}
 	// ---------------------------------------------------------------- nopanic
 	// helpers called from the builder that produce the ByteArrayField payloads
 	helpers := map[*FuncInfo]bool{}
